@@ -168,13 +168,15 @@ def check_add(chk, repo, sup):
     for t in list(sup) + ["bogus"] + NEAR_MISS_TYPES:
         for nfi in (0, 1, 2):
             for nfo in (0, 1):
-                for name in ("g", "9g"):
+                for name in ("g", "9g", ""):
                     for exists in (False, True):
                         for allow in (False, True):
                             for uid in (False, True):
                                 if not isinstance(t, str) or t in NEAR_MISS_TYPES:
                                     if name != "g" or exists or allow:
                                         continue
+                                if name == "" and (exists or uid or allow):
+                                    continue  # the empty name is judged as given (uid would replace it by a generated one)
                                 for missing_fi in (False, True) if nfi else (False,):
                                     for acn in (False, True) if missing_fi else (False,):
                                         n_states += 1
@@ -207,7 +209,9 @@ def check_add(chk, repo, sup):
                                             reasons.append("unknown-type")
                                         if exists and not allow and not uid:
                                             reasons.append("name-clash")
-                                        if name[0].isdigit():
+                                        if name == "":
+                                            reasons.append("empty-name")
+                                        elif name[0].isdigit():
                                             reasons.append("leading-digit")
                                         if t in ("buf", "not") and nfi > 1:
                                             reasons.append("multi-fanin-on-single-input-type")
@@ -231,7 +235,7 @@ def check_add(chk, repo, sup):
                                                 # existed before the call and the call cannot simply take it away again)
                                                 fails.setdefault(("C07.A.add-rejected-call-adds-no-edge", f"add::{reasons[0]}::edge left behind"), state | {"edges_left": edges_added})
                                             # pre-checkable reasons must be rejected before the node is created
-                                            if r == ("raise", "ValueError") and nodes_added and reasons[0] in ("unknown-type", "name-clash", "leading-digit", "multi-fanin-on-single-input-type", "fanin-on-zero-input-type"):
+                                            if r == ("raise", "ValueError") and nodes_added and reasons[0] in ("unknown-type", "name-clash", "leading-digit", "empty-name", "multi-fanin-on-single-input-type", "fanin-on-zero-input-type"):
                                                 fails.setdefault(("C07.A.add-checks-before-node", f"add::{reasons[0]}::node created before the raise"), state | {"log": c._log})
                                         else:
                                             if r[0] == "raise":
@@ -249,7 +253,7 @@ def check_add(chk, repo, sup):
                                                 want = {("add_edge", f, newname) for f in fanin} | {("add_edge", newname, o) for o in fanout}
                                                 if set(edges_added) != want:
                                                     fails.setdefault(("C07.A.add-edge-direction", "add::edges differ from fanin->n->fanout"), state | {"edges": edges_added, "want": sorted(want)})
-    classes = [("C07.A.add-rejects", "add::" + r) for r in ("unknown-type", "name-clash", "leading-digit", "multi-fanin-on-single-input-type", "fanin-on-zero-input-type",
+    classes = [("C07.A.add-rejects", "add::" + r) for r in ("unknown-type", "name-clash", "leading-digit", "empty-name", "multi-fanin-on-single-input-type", "fanin-on-zero-input-type",
                                                              "fanin-on-bb_output", "multi-fanin-on-bb_input", "fanout-from-bb_input", "missing-fanin-node")]
     for rule, key in classes:
         f = [(k, v) for k, v in fails.items() if k[0] == rule and k[1].startswith(key + "::")]
@@ -519,6 +523,22 @@ class Order:
             for tr in ast.walk(fi.node):
                 if isinstance(tr, ast.Try) and any(isinstance(x, (ast.Yield, ast.YieldFrom)) for b_ in tr.body for x in ast.walk(b_)) and self.is_rollback(tr):
                     return True
+                # a generic manager `try: yield  except <errors>: undo(); raise` whose `undo` parameter receives a local function of the
+                # caller that removes the nodes
+                if isinstance(tr, ast.Try) and any(isinstance(x, (ast.Yield, ast.YieldFrom)) for b_ in tr.body for x in ast.walk(b_)):
+                    params = [a.arg for a in fi.node.args.posonlyargs + fi.node.args.args]
+                    for h in tr.handlers:
+                        reraises = bool(h.body) and isinstance(h.body[-1], ast.Raise) and h.body[-1].exc is None
+                        called = {x.func.id for b_ in h.body for x in ast.walk(b_) if isinstance(x, ast.Call) and isinstance(x.func, ast.Name) and x.func.id in params}
+                        if not reraises or not called:
+                            continue
+                        for pname in called:
+                            idx = params.index(pname) - (1 if params and params[0] == "self" else 0)
+                            actual = expr.args[idx] if 0 <= idx < len(expr.args) else next((k.value for k in expr.keywords if k.arg == pname), None)
+                            if isinstance(actual, ast.Name):
+                                for d in ast.walk(self.fi.node):
+                                    if isinstance(d, ast.FunctionDef) and d.name == actual.id and self._removes(d.body):
+                                        return True
         return False
 
     @staticmethod
